@@ -449,6 +449,7 @@ func TestC17Equality(t *testing.T) {
 
 		aspect := rapid.SampledFrom(aspects).Draw(t, "aspect")
 		freshPair := false
+		sharedRel := ""
 
 		switch aspect {
 		case "type-name":
@@ -589,7 +590,19 @@ func TestC17Equality(t *testing.T) {
 			} else {
 				// One more ID, or two different lists that read alike when
 				// written out (IDs with spaces, an empty ID against no ID).
-				switch rapid.IntRange(0, 4).Draw(t, "manyvariant") {
+				switch rapid.IntRange(0, 5).Draw(t, "manyvariant") {
+				case 5:
+					// one list is the beginning of the other, in the same
+					// array (a caller cut it from the list it held)
+					whole := []string{"k1", "k2", "k3"}
+					if rapid.Bool().Draw(t, "prefix-side") {
+						vals[rel.FromName], vals2[rel.FromName] = whole, whole[:rapid.IntRange(1, 2).Draw(t, "prefix-len")]
+					} else {
+						vals[rel.FromName], vals2[rel.FromName] = whole[:rapid.IntRange(1, 2).Draw(t, "prefix-len")], whole
+					}
+
+					// (given to the resources as they are, not as copies)
+					sharedRel = rel.FromName
 				case 0:
 					vals[rel.FromName], vals2[rel.FromName] = []string{"p q", "r"}, []string{"p", "q r"}
 				case 1:
@@ -618,6 +631,11 @@ func TestC17Equality(t *testing.T) {
 		}
 
 		b := build(ts2, vals2, bWrapped)
+
+		if sharedRel != "" {
+			a.Set(sharedRel, vals[sharedRel])
+			b.Set(sharedRel, vals2[sharedRel])
+		}
 
 		if freshPair {
 			st := ts
